@@ -472,10 +472,27 @@ Definition dir := list (str * str).
 Definition dir_name_ok (fname : str) : bool :=
   negb (mem_N cDOT fname) && negb (starts_with [cSLASH] fname).
 
+(* what the file system itself refuses (Linux; `create_dir_all` / `File::create` return an error):
+   a NUL character in the name, and a path component longer than NAME_MAX = 255 bytes of UTF-8 —
+   the last component is the file name, 8 bytes longer than the class name's (`.mapping`).
+   PATH_MAX (4096 bytes for the whole path, target directory included) is not modelled. *)
+Definition utf8_width (c : N) : N :=
+  if N.ltb c 128 then 1 else if N.ltb c 2048 then 2 else if N.ltb c 65536 then 3 else 4.
+Fixpoint utf8_len (s : str) : N := match s with [] => 0 | c :: s' => utf8_width c + utf8_len s' end.
+Definition name_max : N := 255.
+Fixpoint comps_fit (cs : list str) : bool :=
+  match cs with
+  | [] => true
+  | [c] => N.leb (utf8_len c + 8) name_max
+  | c :: cs' => N.leb (utf8_len c) name_max && comps_fit cs'
+  end.
+Definition fs_name_ok (fname : str) : bool :=
+  negb (mem_N 0 fname) && comps_fit (split_on cSLASH fname).
+
 Definition write_dir (M : list class) : res dir :=
   do fs <- files M;
   map_res (fun nc =>
-             if dir_name_ok (fst nc) then
+             if dir_name_ok (fst nc) && fs_name_ok (fst nc) then
                do body <- write_tree M (snd nc); Ok (fst nc ++ s_dot_mapping, body)
              else Err) fs.
 
@@ -507,3 +524,54 @@ Fixpoint read_files (acc : list class) (fs : list (str * str)) : res (list class
 
 Definition read_dir (d : dir) : res (list class) :=
   read_files [] (isort path_leb (filter (fun pc => is_mapping_file (fst pc)) d)).
+
+(* what `enigma_dir::read` is pointed at: nothing (an error), a plain file (WalkDir yields just that
+   file: it is read when its extension is `mapping`, otherwise the result is empty), or a directory *)
+Inductive fs_node := NoSuchPath | PlainFile (name content : str) | Directory (d : dir).
+Definition read_path (p : fs_node) : res (list class) :=
+  match p with
+  | NoSuchPath => Err
+  | PlainFile name content => read_dir [(name, content)]
+  | Directory d => read_dir d
+  end.
+
+(* `BufRead::lines` on bytes: a line that is not UTF-8 is an error of the whole read.  Strict UTF-8:
+   shortest form only, no surrogates, at most U+10FFFF. *)
+Definition is_cont (b : N) : bool := N.leb 128 b && N.leb b 191.
+Fixpoint utf8_decode (fuel : nat) (bs : list N) : option str :=
+  match fuel with
+  | O => None
+  | S f =>
+      match bs with
+      | [] => Some []
+      | b0 :: r0 =>
+          if N.ltb b0 128 then option_map (cons b0) (utf8_decode f r0)
+          else if N.leb 194 b0 && N.leb b0 223 then
+            match r0 with
+            | b1 :: r1 => if is_cont b1 then option_map (cons ((b0 - 192) * 64 + (b1 - 128))) (utf8_decode f r1) else None
+            | _ => None
+            end
+          else if N.leb 224 b0 && N.leb b0 239 then
+            match r0 with
+            | b1 :: b2 :: r2 =>
+                let cp := (b0 - 224) * 4096 + (b1 - 128) * 64 + (b2 - 128) in
+                if is_cont b1 && is_cont b2 && N.leb 2048 cp && negb (N.leb 55296 cp && N.leb cp 57343)
+                then option_map (cons cp) (utf8_decode f r2) else None
+            | _ => None
+            end
+          else if N.leb 240 b0 && N.leb b0 244 then
+            match r0 with
+            | b1 :: b2 :: b3 :: r3 =>
+                let cp := (b0 - 240) * 262144 + (b1 - 128) * 4096 + (b2 - 128) * 64 + (b3 - 128) in
+                if is_cont b1 && is_cont b2 && is_cont b3 && N.leb 65536 cp && N.leb cp 1114111
+                then option_map (cons cp) (utf8_decode f r3) else None
+            | _ => None
+            end
+          else None
+      end
+  end.
+Definition read_bytes (acc : list class) (bs : list N) : res (list class) :=
+  match utf8_decode (S (length bs)) bs with
+  | Some text => read_into acc text
+  | None => Err
+  end.
